@@ -473,7 +473,7 @@ META = {
              'independently and compared with Format(e), and parsed back by michelson_to_micheline and compared with e; deviating texts and the texts of the '
              'mainnet scripts are judged by the reference parser in TLC (MichTextTrace).'),
     'design_ref': 'DESIGN.md section 5 C18',
-    'note': ('Trusted: the 40-line lexer, expression <-> Micheline JSON conversion. Bounds: see rule; quick 7 leaf types / 4 plain instructions, thorough 21 / 43. '
+    'note': ('Every other text is parsed through the default entry point (no parser argument), the result edited in place and the text parsed again. Trusted: the 40-line lexer, expression <-> Micheline JSON conversion. Bounds: see rule; quick 7 leaf types / 4 plain instructions, thorough 21 / 43. '
              'Leg C quick: the 8 smallest of the 20 mainnet scripts, thorough all 20.'),
     'technique': 'TLA+ spec + TLC exhaustive model checking; spec-behaviour replay into micheline_to_michelson / michelson_to_micheline; TLC validation of printed texts',
 }
